@@ -738,12 +738,19 @@ class StateEngine(object):
         and those must stay unacknowledged until the terminal status has been
         recorded and its notification published.
         If ExecutionFailed we need to check for outstanding terminated branch
-        messages subsequently arriving. If ExecutionSucceeded we just remove,
-        as we don't have to cater for outstanding terminated branch messages
-        subsequently arriving.
+        messages subsequently arriving, otherwise we just remove.
         """
         if execution_arn in self.branch_metadata:
-            if execution_failed:
+            all_branch_results = self.branch_metadata[execution_arn].results
+            """
+            An execution can also succeed after a Map or Parallel state was
+            terminated, if its failure was handled by a Catch. Events of the
+            terminated branches may still be in flight in that case too, and
+            the termination markers must remain until those have been dropped.
+            """
+            if execution_failed or any(
+                "terminated" in r for r in all_branch_results.values()
+            ):
                 self.check_pending_results(execution_arn)
             else:
                 del self.branch_metadata[execution_arn]
